@@ -198,13 +198,12 @@ PROPS["C17"] = {
     "harness": ["c17"],
     "both_profiles": True,
     "t1_facts": ["dc:", "Dc.lean"],
-    "known_keys_expected": ["c17/nested-junction-wrong-parent", "c17/chain-delay-nondc-gap", "c17/port-time-wrap",
-                            "c17/offset-i64-overflow"],
+    "known_keys_expected": ["c17/nested-junction-wrong-parent", "c17/chain-delay-nondc-gap", "c17/port-time-wrap"],
     "modelled": "ports.rs Ports::{new,set_receive_times,open_ports,entry_port,last_port,next_assignable_port,"
                 "assign_next_downstream_port,port_assigned_to,topology,is_last_port,total_propagation_time,"
                 "intermediate_propagation_time_to,propagation_time_to}, SubDevice::is_child_of, dc.rs find_subdevice_parent, "
                 "configure_subdevice_offsets (incl. the evaluated log arguments of this build configuration), "
-                "assign_parent_relationships, write_dc_parameters (i64 negate/add in both overflow modes), configure_dc "
+                "assign_parent_relationships, write_dc_parameters (i64 wrapping_sub), configure_dc "
                 "(latch as a function of the register values, reference selection, offset/delay writes)",
     "rule": "per tree: (1) `spec` line: the Rust physical oracle (event walk of the frame through the tree) vs the Lean "
             "specification EcModel/DcSpec.lean (reports, arrival times, true parents, true downstream ports); (2) `assign` line: the "
@@ -224,7 +223,7 @@ PROPS["C17"] = {
         "parent_is_true_parent_partial: no junction inside a non-last branch of another junction; no 32-bit wrap between the latches of one DC device",
         "chain_delay_exact_partial: DC-capable devices contiguous in frame order (non-DC only before the first / after the last), pd(upstream) = return delay(downstream) on every hop, no intra-device wrap",
         "inconsistent_is_error: full statement since the fix of the topology panics (reports only need u32-typed times)",
-        "offset_formula in checked builds presupposes that configure_dc returned (i64 overflow panics are a known finding)",
+        "offset_value: unconditional in both build modes since the wrapping_sub fix",
     ],
 }
 
@@ -468,7 +467,7 @@ PROPS["C16"] = {
     "harness": ["c16"],
     "both_profiles": True,
     "t1_facts": ["coe:"],
-    "known_keys_expected": ["c16/emergency-assert", "c16/segment-length-underflow", "c16/sdo-info-length",
+    "known_keys_expected": ["c16/segment-length-underflow", "c16/sdo-info-length",
                             "c16/sdo-info-endless", "c16/segment-endless"],
     "modelled": "mailbox/coe/mod.rs: wait_for_mailboxes (stale drain, 10 rounds), wait_for_mailbox_response, mailbox_write_read "
                 "(HeadersRaw triage: assert_ne!, emergency, abort, type/index/sub-index validation, R::unpack, trim_front), "
@@ -747,12 +746,12 @@ MANIFEST_TEXT["C17"] = {
             "no junction inside a non-last branch of another junction: run succeeds, parent = physical upstream neighbour, every port's "
             "downstream = the device plugged in; induction over the tree, unbounded size/depth); chain_delay_exact_partial (pure "
             "chains on any ports, DC devices contiguous, symmetric forwarding: delay of every DC device = arrival - arrival of the first DC device) and chain_delay_formula (what is computed on any "
-            "chain incl. the floor(./2) rounding and the non-DC case); offset_wrapping/offset_checked/offset_formula (0x0920 = now - "
+            "chain incl. the floor(./2) rounding and the non-DC case); offset_value/offset_formula (0x0920 = now - "
             "latched receive time as two's-complement i64, 0x0928 = delay, for exactly the DC devices, in order); "
             "first_dc_is_reference; inconsistent_is_error (ARBITRARY reports incl. no open port: never a panic; "
-            "inconsistent_is_error_configure_dc: same for the whole configure_dc); valid_tree_no_panic. Seven known findings, each with a decide-checked counterexample "
-            "theorem and a harness key (nested junctions x2, no open port, over-subscribed junction, non-DC gap, 32-bit wrap inside a "
-            "device, i64 overflow in debug builds).",
+            "inconsistent_is_error_configure_dc: same for the whole configure_dc); valid_tree_no_panic. Three known findings, each with a decide-checked counterexample "
+            "theorem and a harness key (nested junctions, non-DC gap, 32-bit wrap inside a device); four former findings fixed (no "
+            "open port, over-subscribed junction, nested-junction panic, i64 overflow): their witnesses are now theorems about errors/values.",
     "note": "Trusted: Lean kernel; hand translation of dc.rs/ports.rs (validated by running the real assign_parent_relationships "
             "and the real configure_dc on every generated case, both profiles, incl. which panic fires); the physical specification "
             "itself (its Rust twin is diffed against the Lean one on every tree). Fork/cross delay formulas are modelled and tied "
@@ -767,7 +766,7 @@ PROPS["C15"] = {
     "both_profiles": True,
     "t1_facts": ["coe:"],
     "known_keys_expected": ["c15/segment-response-scs0", "c15/segment-data-offset", "c15/segmented-initiate-data-ignored",
-                            "c15/emergency-not-reported", "c15/word-array-buffer", "c15/write-zero-length"],
+                            "c15/word-array-buffer", "c15/write-zero-length"],
     "modelled": "the client model of C16 (mailbox/coe/mod.rs, services.rs, headers.rs, mailbox/mod.rs, SubDevice::mailbox_counter, "
                 "ReceivedPdu::trim_front) run against a SPECIFICATION CoE server (EcModel/CoeServer.lean, written from ETG1000.6 "
                 "5.6.2 / SOEM / IgH, not from /repo): dictionary incl. complete access, expedited / normal / segmented upload with free "
@@ -957,7 +956,8 @@ PROPS["C13"] = {
         "the no_std build configuration (no log/defmt): fmt::trace!(..) evaluates its arguments, which makes `word_addr * 2` in "
         "category() an overflow site; with the `log` feature that site is silent and the walk goes on to category:add / new:mul",
         "at most two hanging queries per image and 60 hanging images are handed to the model in a release run (2 M model "
-        "iterations each); every image is still monitored on the real code",
+        "iterations each); every image is still monitored on the real code; the release run generates a third of the "
+        "random / mutated images of the dev run (each non-terminating image costs ~0.2 s of provider calls)",
         "the configuration arithmetic that consumes PDO bit lengths (configure_pdos_*, increment_byte_aligned) is not covered "
         "by this check: it needs a MainDevice + simulated segment (see level_note)",
     ],
@@ -1035,3 +1035,7 @@ MANIFEST_TEXT["C12"] = {
 
 # checks that are registered but not yet passing end-to-end are not claimed in MANIFEST.json
 NOT_READY = {}
+PROPS["C01"]["harness"].append("c01d")
+PROPS["C01"]["drivers"]["c01d"] = "drv_micro"
+PROPS["C01"]["rule"] += (" || c01d: the same with futures of OTHER requests dropped at arbitrary points (no deadlines): a genuine first response to a "
+                         "request that was not itself abandoned must be accepted; symptoms in runs where a drop hit the TX/RX window are attributed to C06's known finding")
